@@ -11,7 +11,7 @@ namespace PM.Family.C07
 open PM
 open PM.SchemaCompile
 open PM.C07
-open PM.Gen PM.Family
+open PM.Gen PM.Family PM.FromDom
 
 /-- `PM.C07.nodeTable_spec` with its schema guards discharged for the bundled schema family -/
 theorem nodeTable_spec {spec : Spec} {S : Schema} (hS : (spec, S) ∈ familySpecs) (i : Nat)
